@@ -113,6 +113,20 @@ def check_addr(case, ctx):
             raise Violation("C05/publickey/raised", "%s raised %r" % (what, a))
         key = typ if compressed else "p2pkh_uncompressed"
         judge("C05/publickey[%s%s]" % (typ, "" if compressed else "-uncompressed"), what, a, exp[key])
+    # a key object parsed from the UNCOMPRESSED encoding: the documented defaults (compressed=True) still apply
+    st_, pku = call(PublicKey.parse, secp.ser_u(pt))
+    if st_ == "ok":
+        for what, f, want in (("sec()", pku.sec, secp.ser_c(pt)), ("h160()", pku.h160, hashes.hash160(secp.ser_c(pt)))):
+            st_, v = call(f)
+            if st_ == "exc" or v != want:
+                raise Violation("C05/publickey/parsed-uncompressed-defaults", "PublicKey.parse(uncompressed).%s = %r, expected %s"
+                                % (what, v, want.hex()))
+        st_, a = call(pku.address, testnet=testnet)
+        if st_ == "exc":
+            raise Violation("C05/publickey/raised", "parse(uncompressed).address() raised %r" % (a,))
+        judge("C05/publickey[p2wpkh-from-uncompressed-encoding]", "PublicKey.parse(uncompressed).address()", a, exp["p2wpkh"])
+        st_, a = call(pku.address, testnet=testnet, addr_type="p2pkh")
+        judge("C05/publickey[p2pkh-from-uncompressed-encoding]", "PublicKey.parse(uncompressed).address(p2pkh)", a, exp["p2pkh"])
     # unsupported type must not produce an address of some other kind
     st_, a = call(pk.address, addr_type="p2sh")
     if st_ == "ok" and isinstance(a, str):
@@ -200,6 +214,47 @@ def check_hash(case, ctx):
             raise Violation("C05/hash/" + name, "%s of %d bytes differs" % (name, n))
 
 
+def check_hash_threads(case, ctx):
+    """Several threads hash different messages at once (tiny switch interval); every digest must be right."""
+    import sys
+    import threading
+    from btc_hd_wallet import helper, ripemd
+    msgs = [bytes(((case["a"] + t * 31 + i * (t + 1)) & 0xFF) for i in range(case["n"] + 17 * t)) for t in range(case["threads"])]
+    want = [(hashlib.new("ripemd160", m).digest() if hashes.HAVE_OPENSSL_RIPEMD else hashes.ripemd160_pure(m), hashes.hash160(m))
+            for m in msgs]
+    got = [None] * len(msgs)
+    errs = []
+    barrier = threading.Barrier(len(msgs))
+
+    def work(t):
+        try:
+            barrier.wait(timeout=30)
+            out = None
+            for _ in range(case["rounds"]):
+                out = (ripemd.ripemd160(msgs[t]), helper.hash160(msgs[t]))
+                if out != want[t]:
+                    break
+            got[t] = out
+        except BaseException as e:  # noqa: BLE001
+            errs.append(e)
+    old = sys.getswitchinterval()
+    sys.setswitchinterval(1e-6)
+    try:
+        ths = [threading.Thread(target=work, args=(t,), daemon=True) for t in range(len(msgs))]
+        for th in ths:
+            th.start()
+        for th in ths:
+            th.join(120)
+    finally:
+        sys.setswitchinterval(old)
+    if errs:
+        raise Violation("C05/hash/threads-raised", "concurrent hashing raised %r" % (errs[0],))
+    for t in range(len(msgs)):
+        if got[t] != want[t]:
+            raise Violation("C05/hash/concurrent-digest-wrong", "with %d threads hashing at once, thread %d got a wrong "
+                            "RIPEMD-160 / HASH160 for its %d-byte message" % (len(msgs), t, len(msgs[t])))
+
+
 def clauses():
     return [
         Clause("addresses", check_addr,
@@ -215,6 +270,11 @@ def clauses():
                                                        "h256": st.binary(min_size=32, max_size=32)}),
                nontrivial=lambda c: c["h160"][0] in (0, 0x4C, 0x4D, 0x4E) or c["h256"][0] in (0, 0x4C, 0x4D, 0x4E) or True,
                n={"quick": 1000, "thorough": 50000}, shards={"quick": 4, "thorough": 16}),
+        Clause("hash-threads", check_hash_threads,
+               "2..4 free-running threads (switch interval 1e-6) hash different messages repeatedly; each digest must "
+               "equal hashlib's", gen=lambda tier: st.fixed_dictionaries({
+                   "threads": st.integers(2, 4), "n": st.integers(0, 300), "a": st.integers(0, 255), "rounds": st.integers(3, 12)}),
+               nontrivial=lambda c: c["threads"] >= 3, n={"quick": 60, "thorough": 3000}, shards={"quick": 12, "thorough": 16}),
         Clause("hash160", check_hash,
                "ripemd160, hash160, sha256, hash256 for every input length 0..1024 (quick) / 0..4096 (thorough) plus "
                "padding-boundary lengths with constant fills, against hashlib; non-trivial = length mod 64 in 55..63 or 0",
